@@ -25,7 +25,7 @@ from typing import Any, Dict, List, Optional, Set, Tuple
 
 from hypothesis import strategies as st
 
-from ..core import CaseResult, Family, HarnessError, Violation
+from ..core import CaseResult, Family, HarnessError, Violation, pick
 from ..engines import memwire, sftpwire as W
 from ..engines.memwire import Pair, asyncssh
 from ..engines.sftpwire import (FXP_ATTRS, FXP_DATA, FXP_EXTENDED,
@@ -454,12 +454,12 @@ def run_codec_project(case) -> CaseResult:
 
 
 def project_strategy(tier: str):
-    u32s = st.sampled_from([0, 1, 7, 0o755, 65535, 2 ** 31, 2 ** 32 - 1])
-    u64s = st.sampled_from([0, 1, 4096, 2 ** 32, 2 ** 63 - 1, 2 ** 64 - 1])
-    times = st.sampled_from([0, 1, 1700000000, 2 ** 32 - 1])
-    ns = st.sampled_from([0, 1, 999999999])
-    text = st.sampled_from(['', 'root', 'ü€', 'user name', '0'])
-    blob = st.sampled_from([b'', b'x', b'\x00\xff', b'a' * 40])
+    u32s = pick([0, 1, 7, 0o755, 65535, 2 ** 31, 2 ** 32 - 1])
+    u64s = pick([0, 1, 4096, 2 ** 32, 2 ** 63 - 1, 2 ** 64 - 1])
+    times = pick([0, 1, 1700000000, 2 ** 32 - 1])
+    ns = pick([0, 1, 999999999])
+    text = pick(['', 'root', 'ü€', 'user name', '0'])
+    blob = pick([b'', b'x', b'\x00\xff', b'a' * 40])
     fields = {
         'type': st.integers(1, 9), 'size': u64s, 'alloc_size': u64s,
         'uid': u32s, 'gid': u32s, 'owner': text, 'group': text,
@@ -473,7 +473,7 @@ def project_strategy(tier: str):
 
     @st.composite
     def build(draw):
-        v = draw(st.sampled_from([3, 4, 5, 6]))
+        v = draw(pick([3, 4, 5, 6]))
         # groups keep paired fields together most of the time
         groups = [['type'], ['size'], ['alloc_size'], ['uid', 'gid'],
                   ['owner', 'group'], ['permissions'], ['atime'],
@@ -491,7 +491,7 @@ def project_strategy(tier: str):
 
         # occasionally break a pair
         if draw(st.integers(0, 7)) == 0 and out:
-            out.pop(draw(st.sampled_from(sorted(out))))
+            out.pop(draw(pick(sorted(out))))
 
         if v < 6 and 'alloc_size' in out and draw(st.integers(0, 7)):
             # known finding (alloc_size leaks into v<6): keep it rare so the
@@ -581,7 +581,7 @@ def run_codec_misc(case) -> CaseResult:
 
 
 def misc_strategy(tier: str):
-    q = st.one_of(st.sampled_from([0, 1, 2 ** 32 - 1, 2 ** 32, 2 ** 63,
+    q = st.one_of(pick([0, 1, 2 ** 32 - 1, 2 ** 32, 2 ** 63,
                                    2 ** 64 - 1]),
                   st.integers(0, 2 ** 64 - 1))
     return st.fixed_dictionaries({
@@ -1458,33 +1458,33 @@ def check_batch(v: int, sent: List[Dict[str, Any]],
 
 
 REQ_ATTRS = st.fixed_dictionaries({}, optional={
-    'size': st.sampled_from([0, 1, 10, 5000]),
-    'uid': st.sampled_from([0, 1, 65534]), 'gid': st.sampled_from([0, 1]),
-    'owner': st.sampled_from(['root', '0', 'nosuchuser', '']),
-    'group': st.sampled_from(['root', '0', 'nosuchgroup', '']),
-    'permissions': st.sampled_from([0, 0o600, 0o644, 0o755, 0o7777]),
-    'atime': st.sampled_from([0, 1700000000]),
-    'atime_ns': st.sampled_from([0, 999999999]),
-    'mtime': st.sampled_from([0, 1700000001]),
-    'mtime_ns': st.sampled_from([0, 5]),
-    'crtime': st.sampled_from([0, 1600000000]),
-    'ctime': st.sampled_from([0, 1600000001]),
-    'acl': st.sampled_from([b'', b'acl']),
+    'size': pick([0, 1, 10, 5000]),
+    'uid': pick([0, 1, 65534]), 'gid': pick([0, 1]),
+    'owner': pick(['root', '0', 'nosuchuser', '']),
+    'group': pick(['root', '0', 'nosuchgroup', '']),
+    'permissions': pick([0, 0o600, 0o644, 0o755, 0o7777]),
+    'atime': pick([0, 1700000000]),
+    'atime_ns': pick([0, 999999999]),
+    'mtime': pick([0, 1700000001]),
+    'mtime_ns': pick([0, 5]),
+    'crtime': pick([0, 1600000000]),
+    'ctime': pick([0, 1600000001]),
+    'acl': pick([b'', b'acl']),
     'text_hint': st.integers(0, 3), 'mime_type': st.just('text/plain'),
-    'nlink': st.integers(0, 3), 'alloc_size': st.sampled_from([0, 4096]),
+    'nlink': st.integers(0, 3), 'alloc_size': pick([0, 4096]),
     'untrans_name': st.just(b'u'), 'type': st.integers(1, 9),
-    'extended': st.lists(st.tuples(st.sampled_from([b'k@x', b'']),
-                                   st.sampled_from([b'', b'val'])),
+    'extended': st.lists(st.tuples(pick([b'k@x', b'']),
+                                   pick([b'', b'val'])),
                          min_size=1, max_size=2).map(
                              lambda l: [list(x) for x in l])})
 
 # what an SFTPServer application may hand back from stat(): any field subset
 POOL_ATTRS = st.fixed_dictionaries({}, optional={
-    'type': st.integers(1, 9), 'size': st.sampled_from([0, 2 ** 40]),
-    'alloc_size': st.sampled_from([0, 8192]),
-    'uid': st.sampled_from([0, 1000]), 'gid': st.sampled_from([0, 1000]),
-    'owner': st.sampled_from(['root', 'ü']), 'group': st.just('wheel'),
-    'permissions': st.sampled_from([0o100644, 0o40755, 0o644]),
+    'type': st.integers(1, 9), 'size': pick([0, 2 ** 40]),
+    'alloc_size': pick([0, 8192]),
+    'uid': pick([0, 1000]), 'gid': pick([0, 1000]),
+    'owner': pick(['root', 'ü']), 'group': st.just('wheel'),
+    'permissions': pick([0o100644, 0o40755, 0o644]),
     'atime': st.just(1700000000), 'atime_ns': st.just(1),
     'crtime': st.just(1600000000), 'crtime_ns': st.just(2),
     'mtime': st.just(1700000001), 'mtime_ns': st.just(3),
@@ -1499,33 +1499,33 @@ def server_strategy(tier: str):
     max_batches = 3 if tier == 'quick' else 5
     max_k = 6 if tier == 'quick' else 12
     ids = st.one_of(st.integers(0, 12), st.integers(0, 12),
-                    st.sampled_from([0xffffffff, 0x80000000, 0x7fffffff,
+                    pick([0xffffffff, 0x80000000, 0x7fffffff,
                                      256, 65536]),
                     st.integers(0, 2 ** 32 - 1))
     paths = st.one_of(
-        st.sampled_from(sorted(FIXTURE)), st.sampled_from(sorted(FIXTURE)),
-        st.sampled_from(WPATHS),
-        st.sampled_from(['/@e/' + e for e in ERRNOS]),
-        st.sampled_from(['/@s/%d' % c for c in range(2, 32)]),
-        st.sampled_from(['/@a0', '/@a1']))
+        pick(sorted(FIXTURE)), pick(sorted(FIXTURE)),
+        pick(WPATHS),
+        pick(['/@e/' + e for e in ERRNOS]),
+        pick(['/@s/%d' % c for c in range(2, 32)]),
+        pick(['/@a0', '/@a1']))
     href = st.one_of(st.tuples(st.just('live'), st.integers(0, 3)),
                      st.tuples(st.just('live'), st.integers(0, 3)),
                      st.tuples(st.just('live'), st.integers(0, 3)),
                      st.tuples(st.just('bogus'),
-                               st.sampled_from([b'', b'\x00\x00\x00',
+                               pick([b'', b'\x00\x00\x00',
                                                 b'\x00\x00\x00\x00\x00',
                                                 b'\xff\xff\xff\xfe', b'zz',
                                                 b'\x00' * 300]))).map(list)
     cut = st.one_of(st.tuples(st.just('b'), st.integers(0, 12)),
                     st.tuples(st.just('o'), st.integers(0, 400))).map(list)
-    offs = st.one_of(st.sampled_from([0, 1, 50, 99]),
-                     st.sampled_from([100, 101, 5000, 2 ** 32, 2 ** 63 - 1,
+    offs = st.one_of(pick([0, 1, 50, 99]),
+                     pick([100, 101, 5000, 2 ** 32, 2 ** 63 - 1,
                                       2 ** 64 - 1]))
-    lens = st.sampled_from([0, 1, 10, 100, 101, 4096, 65536])
+    lens = pick([0, 1, 10, 100, 101, 4096, 65536])
 
     @st.composite
     def req(draw, forced_op=None, forced_var=None):
-        var = forced_var or draw(st.sampled_from(
+        var = forced_var or draw(pick(
             ['valid', 'valid', 'valid', 'valid', 'trunc', 'trunc', 'trail',
              'unktype', 'unkext']))
         r: Dict[str, Any] = {'id': draw(ids), 'var': var}
@@ -1536,9 +1536,9 @@ def server_strategy(tier: str):
             r['extra'] = draw(st.binary(max_size=12))
             return r
 
-        op = forced_op or draw(st.one_of(st.sampled_from(OPS),
-                                         st.sampled_from(OPS),
-                                         st.sampled_from(sorted(HANDLE_OPS))))
+        op = forced_op or draw(st.one_of(pick(OPS),
+                                         pick(OPS),
+                                         pick(sorted(HANDLE_OPS))))
         r['op'] = op
 
         if var == 'trunc':
@@ -1554,7 +1554,7 @@ def server_strategy(tier: str):
 
         if op == 'copy-data':
             r['h2'] = draw(href)
-            r['off2'] = draw(st.sampled_from([0, 7, 4000]))
+            r['off2'] = draw(pick([0, 7, 4000]))
 
         if op in ('OPEN', 'SETSTAT', 'FSETSTAT', 'MKDIR',
                   'lsetstat@openssh.com'):
@@ -1566,19 +1566,19 @@ def server_strategy(tier: str):
             r['len'] = draw(lens)
 
         if op == 'WRITE':
-            r['data'] = draw(st.sampled_from([b'', b'w', b'W' * 300]))
+            r['data'] = draw(pick([b'', b'w', b'W' * 300]))
 
         if op in ('OPEN', 'RENAME', 'LINK', 'BLOCK', 'STAT', 'LSTAT',
                   'FSTAT'):
-            r['flags'] = draw(st.sampled_from([0, 1, 2, 3, 0x1a, 0x2b, 0xfd,
+            r['flags'] = draw(pick([0, 1, 2, 3, 0x1a, 0x2b, 0xfd,
                                                0xffffffff]))
 
         if op == 'OPEN':
-            r['badflags'] = draw(st.sampled_from([False, False, False, True]))
+            r['badflags'] = draw(pick([False, False, False, True]))
 
         if op == 'REALPATH':
-            r['check'] = draw(st.sampled_from([1, 1, 2, 3, 0, 4, 255]))
-            r['compose'] = draw(st.lists(st.sampled_from(
+            r['check'] = draw(pick([1, 1, 2, 3, 0, 4, 255]))
+            r['compose'] = draw(st.lists(pick(
                 ['d', '..', '/f', 'missing', '']), max_size=2))
 
         if op in PATH2_OPS:
@@ -1590,13 +1590,13 @@ def server_strategy(tier: str):
     @st.composite
     def build(draw):
         # negotiated version uniform over 3..6; either side may be the limit
-        v = draw(st.sampled_from([3, 4, 5, 6]))
+        v = draw(pick([3, 4, 5, 6]))
 
         if draw(st.booleans()):
             cv, sv = v, draw(st.integers(v, 6))
         else:
             sv = v
-            cv = draw(st.sampled_from(list(range(v, 7)) + [7, 255]))
+            cv = draw(pick(list(range(v, 7)) + [7, 255]))
 
         nopen = draw(st.integers(0, 3))
         batches = []
@@ -1604,9 +1604,9 @@ def server_strategy(tier: str):
         if nopen:
             first = []
             for _ in range(nopen):
-                op = draw(st.sampled_from(['OPEN', 'OPEN', 'OPENDIR']))
+                op = draw(pick(['OPEN', 'OPEN', 'OPENDIR']))
                 r = draw(req(op, 'valid'))
-                r['p'] = draw(st.sampled_from(
+                r['p'] = draw(pick(
                     ['/f', '/f', '/l', '/w/x0', '/w/x1', '/d', '/e',
                      '/missing']))
                 r['badflags'] = False
@@ -1614,15 +1614,15 @@ def server_strategy(tier: str):
             batches.append(first)
             second = []
             for i in range(draw(st.integers(0, 4))):
-                r = draw(req(draw(st.sampled_from(
+                r = draw(req(draw(pick(
                     ['READ', 'READ', 'READDIR', 'FSTAT', 'WRITE', 'CLOSE',
                      'fstatvfs@openssh.com', 'ranges@asyncssh.com',
                      'copy-data'])),
-                    draw(st.sampled_from(['valid', 'valid', 'valid', None]))))
+                    draw(pick(['valid', 'valid', 'valid', None]))))
                 r['h'] = ['live', draw(st.integers(0, 3))]
                 if r['op'] == 'READ' and draw(st.booleans()):
-                    r['off'] = draw(st.sampled_from([0, 1, 50, 99]))
-                    r['len'] = draw(st.sampled_from([1, 10, 100, 4096]))
+                    r['off'] = draw(pick([0, 1, 50, 99]))
+                    r['len'] = draw(pick([1, 10, 100, 4096]))
                 second.append(r)
             if second:
                 batches.append(second)
@@ -2187,14 +2187,14 @@ def client_strategy(tier: str):
 
     @st.composite
     def build(draw):
-        sv = draw(st.sampled_from([3, 4, 5, 6]))
+        sv = draw(pick([3, 4, 5, 6]))
         cv = draw(st.integers(sv, 6))
         k = draw(st.integers(1, max_k))
         nfiles = draw(st.integers(0, 2))
-        calls = [{'op': draw(st.sampled_from(CALL_NAMES)),
+        calls = [{'op': draw(pick(CALL_NAMES)),
                   'f': draw(st.integers(0, 1))} for _ in range(k)]
         action = st.fixed_dictionaries({
-            'kind': st.sampled_from(['ok', 'ok', 'ok', 'ok', 'ok', 'err',
+            'kind': pick(['ok', 'ok', 'ok', 'ok', 'ok', 'err',
                                      'err', 'eof', 'wrong', 'wrong',
                                      'okstatus', 'unknown', 'dup', 'noid']),
             'who': st.integers(0, k - 1), 'code': st.integers(0, 29),
